@@ -33,7 +33,8 @@ RULE = ("seeded schedules: list of (stream, burst, yields) steps over N=15..60 i
 B = 1000
 REQUIRED_BUCKETS = ["kind:flat", "kind:composed", "kind:3phase", "kind:fallback-term", "different-first-timestamps", "reader-late",
                     "reader-before-data", "burst>=20", "second-reader", "lagging-stream>=20",
-                    "stream-seconds-behind-the-others", "streams-stamped-in-different-time-zones"]
+                    "stream-seconds-behind-the-others", "streams-stamped-in-different-time-zones", "sub-second-input-step",
+                    "streams-begin-whole-days-apart"]
 REQUIRED_COUNTERS = ["outputs_decoded", "schedules_run"]
 ASSUMPTIONS = ["all streams carry one sample per index (missing values are C13/C19)"]
 
@@ -79,12 +80,18 @@ def gen(rng: Any, tier: str, i: int) -> Any:
                 fp[rng.randrange(per)] = m  # every phase's alignment point is m
                 first += fp
     N = rng.randint(15, 60)
+    # the input step (sampling period of the streams): 1 s, sub-second, or so long that start offsets are whole days
+    step = rng.choice([1.0, 1.0, 1.0, 0.2, 0.25, 3600.0, 21600.0])
+    if step >= 3600.0 and kind != "3phase" and n >= 2:
+        N = max(N, 40)
+        far = int(86400 / step)
+        first = [rng.choice([0, far, far, rng.randint(0, 5)]) for _ in range(n)]
     steps = []
     for _ in range(rng.randint(40, 400)):
         # (stream, burst, loop yields, seconds of virtual time that pass before the next delivery)
         steps.append([rng.randrange(n), rng.choice([1, 1, 1, 5, 20, 35]), rng.choice([0, 0, 1, 5]),
                       rng.choice([0.0] * 12 + [0.5, 6.0, 40.0])])
-    return {"tzmix": rng.random() < 0.25, "kind": kind, "n": n, "groups": groups, "first": first, "N": N, "steps": steps,
+    return {"step": step, "tzmix": rng.random() < 0.25, "kind": kind, "n": n, "groups": groups, "first": first, "N": N, "steps": steps,
             "reader_at": rng.choice([0, 0, 3, 10, 50]), "second_reader_at": rng.choice([None, 20, 60, 150])}
 
 
@@ -121,7 +128,7 @@ async def _drive(case: dict[str, Any], out: dict[str, Any]) -> None:
     zones = [_tz(timedelta(minutes=m)) for m in (0, 330, -210, 345)]
 
     def _stamp(i: int, k: int) -> Any:
-        ts = fm.T0 + timedelta(seconds=k)
+        ts = fm.T0 + timedelta(seconds=k * case.get("step", 1.0))
         # the same instant, written in a different zone on every stream (aware datetimes denote instants)
         return ts.astimezone(zones[i % 4]) if case.get("tzmix") else ts
 
@@ -208,6 +215,10 @@ def check(case: dict[str, Any], rec: Any) -> None:
     n, N, first = case["n"], case["N"], case["first"]
     if len(set(first)) > 1:
         rec.bucket("different-first-timestamps")
+    if case.get("step", 1.0) < 1.0:
+        rec.bucket("sub-second-input-step")
+    if case.get("step", 1.0) >= 3600.0 and max(first) - min(first) >= 4:
+        rec.bucket("streams-begin-whole-days-apart")
     if case.get("tzmix") and n > 1:
         rec.bucket("streams-stamped-in-different-time-zones")
     out: dict[str, Any] = {}
@@ -240,7 +251,7 @@ def check(case: dict[str, Any], rec: Any) -> None:
         ks = []
         bad = False
         for o in out[name]:
-            T = round((o.timestamp - fm.T0).total_seconds())
+            T = round((o.timestamp - fm.T0).total_seconds() / case.get("step", 1.0))
             if case["kind"] == "3phase":
                 vals = [o.value_p1, o.value_p2, o.value_p3]
                 per = n // 3
